@@ -47,6 +47,52 @@ func VerifC01_AcraBlockRoundTrip() {
 	verif.Assert(verif.Eq(out, d), "roundtrip-equal")
 }
 
+// VerifC01_AcraBlockAfterRotation: a block made under a key that has since been rotated still decrypts when the key
+// ring offers the newer keys first — whatever the newer keys are, including keys whose 2-byte key id equals the
+// old key's (the id stored in the block is a hint, not an address).
+func VerifC01_AcraBlockAfterRotation() {
+	d := verif.Bytes("d", verif.Choose("n", 1, 2))
+	old := verifKey("old")
+	oldID, _ := Sha256KeyIDGenerator{}.GenerateKeyID(old, nil)
+	collide := verif.Choose("key-ids-collide", 0, 1) == 1
+	newer := [][]byte{}
+	for i := 0; i < 1+verif.Tier(); i++ {
+		k := verifKey("newer" + string(rune('0'+i)))
+		verif.Assume(!verif.Eq(k, old))
+		if verif.Symbolic() {
+			id, _ := Sha256KeyIDGenerator{}.GenerateKeyID(k, nil)
+			verif.Assume(verif.Eq(id, oldID) == collide)
+		} else if collide {
+			// native replay: the ideal hash of the symbolic run says nothing about real SHA-256, so look for a key
+			// near the model's whose real key id collides (about 2^16 tries)
+			for n := uint32(0); ; n++ {
+				k[28], k[29], k[30], k[31] = byte(n>>24), byte(n>>16), byte(n>>8), byte(n)
+				id, _ := Sha256KeyIDGenerator{}.GenerateKeyID(k, nil)
+				if string(id) == string(oldID) && string(k) != string(old) {
+					break
+				}
+			}
+		}
+		newer = append(newer, k)
+	}
+	block, err := CreateAcraBlock(verifDup(d), verifDup(old), nil)
+	if err != nil {
+		return
+	}
+	_, ab, err := ExtractAcraBlockFromData(block)
+	if err != nil {
+		verif.Assert(false, "extract-no-error")
+		return
+	}
+	ring := append(append([][]byte{}, newer...), verifDup(old)) // newest first
+	out, err := ab.Decrypt(ring, nil)
+	verif.Reach("decrypted")
+	verif.Assert(err == nil, "decrypt-after-rotation-no-error")
+	if err == nil {
+		verif.Assert(verif.Eq(out, d), "roundtrip-after-rotation-equal")
+	}
+}
+
 // VerifC01_AcraBlockEmpty: an empty plaintext is rejected with an error (Themis refuses empty messages), never a panic.
 func VerifC01_AcraBlockEmpty() {
 	key := verifKey("key")
